@@ -16,6 +16,10 @@ CHECKS = {
  'C07': dict(engine='P', technique='bounded-exhaustive shape enumeration (call graphs x edge realisations, snippet per mechanism, step family) x every analysis entry point, crash/divergence oracle',
              text='All call graphs over main+2 (thorough: +3) functions with every edge realised as direct/closure/interface/function-parameter/method-value call, one snippet per named mechanism and SSA instruction kind, and the C01 step family are pushed through all 14 analysis entry points in worker subprocesses; a panic, a worker death or a case over the wall budget is a violation; an error return is not.',
              note='shows absence of crashes only on the enumerated shapes; divergence judged by a generous wall budget per entry point', ref='§6 C07'),
+
+ 'C16': dict(engine='L+P', technique='exhaustive enumeration of structured function bodies; explicit-state (block,stack) reference search over the real SSA CFG + Tarjan SCC; exhaustive native execution',
+             text='Every function body with <= n statement nodes (n=4 quick: 9426 functions, n=5 thorough: 214209) is SSA-built; defers.AnalyzeFunction must agree with an independent explicit-state reference on boundedness (defer on a CFG cycle) and on the set of stacks at every normal-exit RunDefers, and every natively executed defer order (all valuations) must be a reported stack (equality for loop-free bodies).',
+             note='reference shares go/ssa CFG construction with the implementation (trusted); bound on statement nodes / nesting', ref='§6 C16'),
 }
 NA = []
 def main():
